@@ -47,6 +47,14 @@ def rand_config(rng, force_full=False, prefix="p"):
         elif rng.random() < 0.5:
             methods.append({"src": name})  # listed but NOT allowed without callee
     if not force_full:
+        if rng.random() < 0.12:
+            # several methods behind one hook name
+            shared = rng.choice(["strOp", "h", "trim"])
+            for m in methods:
+                if not m.get("operator") and rng.random() < 0.6:
+                    m["dst"] = shared
+        if rng.random() < 0.08:
+            methods.append({"src": rng.choice(["padEnd", "replaceAll", "trimStart", "at", "eval"]), "allowedWithoutCallee": rng.random() < 0.3})
         rng.shuffle(methods)
         if rng.random() < 0.06:
             methods = []
@@ -265,6 +273,9 @@ class Gen:
         if d >= self.max_depth:
             return self.leaf()
         x = r.random()
+        if x < 0.04:
+            # one of the systematic operation shapes, wherever an expression can stand
+            return "(" + r.choice(SEED_OPS)[1] + ")"
         if x < 0.35:
             return self.leaf()
         if x < 0.55:
